@@ -1,3 +1,4 @@
+mod cmd_lin;
 mod consts;
 mod rec;
 mod rng;
@@ -65,6 +66,7 @@ fn main() {
     match arg(1) {
         "gen-constants" => { print!("{}", consts::generate()); return; }
         "pm" => cmd_pm(num(2, 1), num(3, 100) as usize, &mut *out),
+        "lin" => cmd_lin::cmd_lin(num(2, 1), num(3, 100) as usize, &mut *out, args.get(5..).unwrap_or(&[])),
         c => { eprintln!("unknown command {c}"); std::process::exit(2); }
     }
     out.flush().unwrap();
